@@ -559,9 +559,15 @@ impl ParsedValue {
         key_path: &KeyPath,
     ) -> Result<Self> {
         match self {
-            ParsedValue::Default | ParsedValue::ForeignKey(_) | ParsedValue::Literal(_) => {
-                Ok(self.clone())
-            }
+            ParsedValue::Default | ParsedValue::Literal(_) => Ok(self.clone()),
+            ParsedValue::ForeignKey(inner_foreign_key) => match inner_foreign_key
+                .try_borrow()
+                .as_deref()
+            {
+                // already resolved, the args also apply to the value it resolved to
+                Ok(ForeignKey::Set(inner)) => inner.populate(args, foreign_key, locale, key_path),
+                _ => Ok(self.clone()),
+            },
             ParsedValue::Variable { key, formatter } => match args.get(&*key.name) {
                 Some(value) => Ok(value.clone()),
                 None => Ok(ParsedValue::Variable {
